@@ -528,12 +528,30 @@ class RecurringPattern(Timeline[IvlOut], Generic[IvlOut]):
             abs_total = (base_anchor.year * 12 + base_anchor.month - 1) + target_total
             year = abs_total // 12
             month = (abs_total % 12) + 1
-            return base_anchor.replace(year=year, month=month)
+            while True:
+                try:
+                    return base_anchor.replace(year=year, month=month)
+                except ValueError:
+                    if year < 1:
+                        raise
+                    # The anchor's day (29-31) does not exist in this month: step
+                    # back one interval (an earlier anchor keeps the phase)
+                    abs_total -= self.interval
+                    year = abs_total // 12
+                    month = (abs_total % 12) + 1
 
         elif self.freq == "yearly":
             delta_years = start_dt.year - base_anchor.year
             offset = delta_years % self.interval
-            return base_anchor.replace(year=start_dt.year - offset)
+            year = start_dt.year - offset
+            while True:
+                try:
+                    return base_anchor.replace(year=year)
+                except ValueError:
+                    if year < 1:
+                        raise
+                    # 29 February anchor in a common year: step back one interval
+                    year -= self.interval
 
         return start_dt
 
